@@ -573,6 +573,17 @@ func execute(r *core.Run, c *Case, routes bool) {
 		return
 	}
 	r.Count("revocation-route", 1)
+	if rv, ok := v.(revocation.Revocation); ok && len(c.Items)%3 != 1 {
+		// the same validator through its deprecated method: the purpose it was
+		// configured for is the purpose it checks
+		rs, rerr = rv.Validate(certs, time.Time{})
+		r.Eval(1)
+		if refNoTime != (rerr == nil) || (rerr != nil && (!sims.IsInvalidChain(rerr) || rs != nil)) {
+			r.Violation("revocation-validator-deprecated-method:"+sigOf(c, rerr == nil, refNoTime), fmt.Sprintf("%s: Validate (deprecated) of the revocation validator for this purpose returned err=%v, the reference predicate says %v", c.desc(), rerr, refNoTime), c)
+			return
+		}
+		r.Count("revocation-route-deprecated-method", 1)
+	}
 	if c.TS {
 		// validity periods are no part of what a TSA chain must meet: an authentic
 		// signing time outside every one of them changes nothing about the chain
